@@ -70,6 +70,8 @@ pub struct Alphabet {
     pub extra_amounts: Vec<u64>,
     /// risk-admin actions on banks in token-less repayment mode (offered only where the flags allow)
     pub tokenless: bool,
+    /// the group admin toggles banks between the default and the SOL asset tag
+    pub retag: bool,
 }
 
 impl Alphabet {
@@ -98,6 +100,7 @@ impl Alphabet {
             sv_multiples: false,
             extra_amounts: vec![],
             tokenless: false,
+            retag: false,
         }
     }
 }
@@ -286,6 +289,15 @@ impl Model for Hist {
                 }
             }
         }
+        if al.retag {
+            for &b in &al.banks {
+                if let Some(bank) = world::try_bank(s, &self.w.banks[b].key) {
+                    if bank.config.asset_tag <= 1 {
+                        v.push(Action::Retag { b, tag: 1 - bank.config.asset_tag });
+                    }
+                }
+            }
+        }
         if al.tokenless {
             for &b in &al.banks {
                 let Some(bank) = world::try_bank(s, &self.w.banks[b].key) else { continue };
@@ -391,6 +403,7 @@ pub fn action_kind(a: &Action) -> &'static str {
         Action::TokenlessRepay { .. } => "tokenless_repay",
         Action::Purge { .. } => "purge",
         Action::ForceTokenlessComplete { .. } => "force_tokenless_complete",
+        Action::Retag { .. } => "retag_bank",
         Action::Transfer { .. } => "transfer_account",
         Action::CloseAccount { .. } => "close_account",
         Action::CloseOriginal { .. } => "close_original_account",
@@ -1028,6 +1041,14 @@ impl StepOracle for StructureOracle {
                 let r = crate::svm::process_tx(&mut t, &crate::svm::Tx::one(again, &[c.w.users[*u].authority, c.w.payer, world::key("c16:second-transfer-target")]));
                 if r.ok() {
                     out.push(Violation { clause: "C16.transfer_once".into(), detail: "a migrated account was transferred a second time".into() });
+                }
+                // ... by the PDA flavour of the instruction either
+                let mut t = c.post.clone();
+                let auth = c.w.users[*u].authority;
+                let (_k, again) = crate::ix::transfer_to_new_account_pda(c.w.group, old_k, auth, c.w.payer, auth, c.w.fee_wallet, 77, None);
+                let r = crate::svm::process_tx(&mut t, &crate::svm::Tx::one(again, &[auth, c.w.payer]));
+                if r.ok() {
+                    out.push(Violation { clause: "C16.transfer_once".into(), detail: "a migrated account was transferred a second time (PDA variant)".into() });
                 }
             } else {
                 out.push(Violation { clause: "C16.transfer_moves_everything".into(), detail: "transfer succeeded but old/new accounts cannot be read".into() });
